@@ -104,6 +104,8 @@ def run_plant_case(ctx, case):
         whole, finite = run_total(case, inp)
     except Exception as e:
         ctx.count("rejected", core.error_class(e))
+        # generated plants and series are valid inputs (IMO factors): the calculation has no reason to refuse them
+        ctx.fail("predicate", "calculation-raises-" + core.error_class(e), f"{type(e).__name__}: {e}", where)
         return False
     if not finite:
         ctx.count("skipped", "bus-without-capacity")
